@@ -206,6 +206,17 @@ def bound_class(f, bb, S, b, side):
     pos = core
     while pos[0] in ("field", "variant") or (pos[0] == "call" and (pos[1].endswith(("Option::unwrap", "Option::expect", "Option::ok_or", "Option::ok_or_else", "Result::unwrap", "Result::expect")) or pos[4] == "std::ops::Try::branch") and pos[2]):
         pos = strip(pos[1]) if pos[0] in ("field", "variant") else strip(pos[2][0])
+    if pos[0] == "call" and pos[1].endswith(("Iterator::find_map", "Iterator>::find_map")) and len(pos[2]) == 2:
+        # TABLE.iter().find_map(|kw| s.find(kw)): the offset is whatever the closure found, for some table entry
+        inner = A.closure_value(f.prog, pos[2][1], (("unknown",),))
+        if inner is not None:
+            cand = ("field", ("variant", inner, "Some"), "0", "std::option::Option::Some")
+            if addsym is not None:
+                cand = ("field", ("bin", "AddWithOverflow", cand, addsym), "0", "")
+            v = bound_class(f, bb, S, cand, side)
+            if v[0]:
+                return True, "for some table entry: " + v[1], v[2]
+            return False, v[1], {}
     if pos[0] == "call" and pos[1].endswith(("Option::or", "Option::or_else")) and len(pos[2]) == 2:
         # first.or_else(|| second): every alternative must be a good offset on its own
         alts2 = [pos[2][0]]
